@@ -10,6 +10,7 @@ ByteSeq = z3.SeqSort(BV8)
 def register(reg):
     register_crypto(reg)
     register_core(reg)
+    register_validation(reg)
 
     @reg.specfun("as_bytes")
     def as_bytes(ex, st, args, cx):
@@ -109,3 +110,70 @@ def register_core(reg):
     unint("accepts", 2)      # accepts(field, stored_value): the field's declared constraints hold of the value
     unint("ok", 2)           # ok(field, input): validation accepts the input
     unint("norm_of", 3)      # norm_of(field, input, result): result is the field's normalised form of input
+
+
+def register_validation(reg):
+    """C11 vocabulary.  field_passes / validator outcome are deterministic functions of (config, field|validator)
+    during one validation pass (assumption: validators are deterministic and do not change what they inspect)."""
+    def U(name, *sorts):
+        return lambda ex: ex.w.fun("spec_" + name, *sorts)
+
+    @reg.specfun("field_passes")
+    def field_passes(ex, st, args, cx):
+        return ex.o.bool_(ex.w.fun("spec_field_passes", "V", "V", "bool")(args[0].e, args[1].e))
+
+    @reg.specfun("cfg_valid")
+    def cfg_valid(ex, st, args, cx):
+        return ex.o.bool_(ex.w.fun("spec_cfg_valid", "V", "bool")(args[0].e))
+
+    @reg.specfun("feature_enabled")
+    def feature_enabled(ex, st, args, cx):
+        return ex.o.bool_(ex.w.fun("spec_feature_enabled", "V", "V", "bool")(args[0].e, args[1].e))
+
+    @reg.specfun("nfields")
+    def nfields(ex, st, args, cx):
+        r = ex.w.rep(ex.o.r(args[0]), 1)
+        st.assume(st.rd("$len", r) >= 0)
+        return ex.o.int_(st.rd("$len", r))
+
+    @reg.specfun("nvalidators")
+    def nvalidators(ex, st, args, cx):
+        r = ex.w.rep(ex.o.r(args[0]), 2)
+        st.assume(st.rd("$len", r) >= 0)
+        return ex.o.int_(st.rd("$len", r))
+
+    def upto(name, step):
+        def build(ex, st, args, cx, monotone):
+            """bounded universal quantifier as a recursive function: f(0) = True, f(i+1) = f(i) and step(i);
+            the two unfoldings around the argument are instantiated; `monotone` adds instances of the lemma
+            f(n) and 0 <= i <= n  ==>  f(i)   (proved by induction in props/lemmas/c11.py from the unfoldings alone)"""
+            from pyvc.eval_call import Schema
+            w, o = ex.w, ex.o
+            fn = w.fun("spec_" + name, "V", "V", "int", "bool")
+            s, c, i = args[0].e, args[1].e, o.i(args[2])
+            for k in (i, i + 1):
+                st.assume(z3.Implies(k <= 0, fn(s, c, k)))
+                st.assume(z3.Implies(k > 0, fn(s, c, k) == z3.And(fn(s, c, k - 1), step(ex, st, args[0], args[1], k - 1))))
+            if monotone:
+                def mono(t, fn=fn, s=s, c=c, n=i):
+                    return z3.And(z3.Implies(z3.And(0 <= t, t <= n, fn(s, c, n)), fn(s, c, t)),
+                                  z3.Implies(z3.And(0 <= t + 1, t + 1 <= n, fn(s, c, n)), fn(s, c, t + 1)))
+                st.schemas = st.schemas + [Schema("int", mono, "upto-monotone")]
+            return o.bool_(fn(s, c, i))
+        reg.specfuns[name] = lambda ex, st, args, cx: build(ex, st, args, cx, True)
+        reg.specfuns[name + "_def"] = lambda ex, st, args, cx: build(ex, st, args, cx, False)
+
+    def field_step(ex, st, schema, config, j):
+        w, o, V = ex.w, ex.o, ex.w.V
+        d = w.rep(o.r(schema), 1)
+        fld = z3.Select(st.rd("$map", d), z3.Select(st.rd("$keys", d), j))
+        ign = z3.Or([w.isinstance_(fld, c) for c in ("IncludeFieldMixin", "VirtualFieldMixin", "InstanceMethodFieldMixin")])
+        return z3.Or(ign, w.fun("spec_field_passes", "V", "V", "bool")(config.e, fld))
+
+    def validator_step(ex, st, schema, config, j):
+        w, o = ex.w, ex.o
+        d = w.rep(o.r(schema), 2)
+        fn = z3.Select(st.rd("$items", d), j)
+        return w.fun("usercall1_ok", "V", "V", "bool")(fn, config.e)
+    upto("fields_ok_upto", field_step)
+    upto("validators_ok_upto", validator_step)
